@@ -1360,4 +1360,28 @@ def r6_11(ctx):
     ctx.floor(n_inst, 1, "colour constructions in the branch of a white-space admitting group of RE_COLOR")
 
 
-RULES = [r6_1, r6_2, r6_3, r6_4, r6_7, r6_5, r6_6, r6_8, r6_9, r6_10, r6_11]
+def r6_12(ctx):
+    ctx.rule("R6.12", "combining many styles is combining them pairwise: Style.combine / Style.chain reduce their operands with `+` (sum, functools.reduce, a loop of `a + b` / `a += b`), whose algebra R6.4 decides. A merge written out again inside them must still let a later operand CLEAR a bit an earlier one set: an accumulator of attribute bits that is only ever or-ed (`bits |= s._attributes & s._set_attributes`, no `& ~s._set_attributes` on the accumulator) can switch attributes on but never off - combine([bold, not bold]) stays bold while bold + not bold is not")
+    c = _style(ctx)
+    n = 0
+    for name in ("combine", "chain"):
+        f = c.method(name)
+        if f is None:
+            continue
+        n += 1
+        ors = [x for x in walk_local(f.node) if isinstance(x, ast.AugAssign) and isinstance(x.op, ast.BitOr) and isinstance(x.target, ast.Name) and any(isinstance(y, ast.Attribute) and y.attr == "_attributes" for y in ast.walk(x.value))]
+        ors += [x for x in walk_local(f.node) if isinstance(x, ast.Assign) and len(x.targets) == 1 and isinstance(x.targets[0], ast.Name) and isinstance(x.value, ast.BinOp) and isinstance(x.value.op, ast.BitOr)
+                and any(isinstance(y, ast.Name) and y.id == x.targets[0].id for y in ast.walk(x.value)) and any(isinstance(y, ast.Attribute) and y.attr == "_attributes" for y in ast.walk(x.value))]
+        if not ors:
+            ctx.ok(f.where, f"{name}() has no attribute arithmetic of its own", f.fq)
+            continue
+        for x in ors:
+            acc = x.target.id if isinstance(x, ast.AugAssign) else x.targets[0].id
+            clears = any(isinstance(y, ast.BinOp) and isinstance(y.op, ast.BitAnd) and any(isinstance(z, ast.UnaryOp) and isinstance(z.op, ast.Invert) for z in (y.left, y.right)) and any(isinstance(z, ast.Name) and z.id == acc for z in ast.walk(y))
+                         for st in walk_local(f.node) for y in ast.walk(st))
+            ctx.check(clears, f.fq, short(x), f"{f.module.relpath}:{x.lineno}", f"the accumulator `{acc}` is also cleared by later operands",
+                      f"`{short(x)}` only ever ORs bits into `{acc}`: a later style that switches an attribute OFF (`not bold`) cannot clear a bit an earlier style set, so {name}([a, b, c]) differs from a + b + c - the right-hand operand no longer wins")
+    ctx.floor(n, 1, "n-ary combination methods of Style")
+
+
+RULES = [r6_1, r6_2, r6_3, r6_4, r6_7, r6_5, r6_6, r6_8, r6_9, r6_10, r6_11, r6_12]
